@@ -18,6 +18,7 @@ def run(ctx):
     if q:
         progs = list(S.c05_programs(3, (0, 1), (0, 1, 2), steps=2))
         progs += list(S.c05_programs(4, (0, 1), (-1, 2), steps=1))
+        progs += list(S.c05_programs(5, (0,), (1,), steps=1)) + list(S.c05_programs(3, (0,), (1,), steps=2, two_actors=True))
     else:
         progs = list(S.c05_programs(4, (0, 1, 2), (-1, 0, 1, 2, 3), steps=2))
         progs += list(S.c05_programs(3, (0, 1), (0, 1, 2), steps=2, two_actors=True))
